@@ -112,6 +112,21 @@ func verifEvalCall(src string, entry string, nres int, args []Value, mode int) (
 	return o
 }
 
+// verifLoadCall: fresh VM, Load(pkg) from an in-memory tree, then call entry.
+func verifLoadCall(files map[string]string, pkg string, entry string, nres int, args []Value) (o verifOutcome) {
+	rec := &verifRecorder{}
+	vm := New(WithStdout(rec))
+	err := vm.Load(verifMkFS(files), pkg)
+	o.evalErr = err
+	if err == nil && entry != "" {
+		rets, cerr := vm.Call(entry, nres, args...)
+		o.callErr = cerr
+		o.rets = rets
+	}
+	o.out = rec.String()
+	return o
+}
+
 func verifDescribe(v Value) map[string]interface{} {
 	m := map[string]interface{}{"T": int(v.t), "Num": math.Float64bits(v.num), "Str": v.String()}
 	return m
@@ -130,7 +145,12 @@ func verifRunProg(p *verifProgReq, resp map[string]interface{}) {
 	for i, a := range p.Args {
 		args[i] = a.value()
 	}
-	o := verifEvalCall(p.Src, p.Entry, p.NRes, args, p.Mode)
+	var o verifOutcome
+	if p.Files != nil {
+		o = verifLoadCall(p.Files, p.Pkg, p.Entry, p.NRes, args)
+	} else {
+		o = verifEvalCall(p.Src, p.Entry, p.NRes, args, p.Mode)
+	}
 	var rets []map[string]interface{}
 	for _, r := range o.rets {
 		rets = append(rets, verifDescribe(r))
